@@ -151,7 +151,7 @@ prop('C19',
      not_decided='the round trip itself (archive codecs archive/zip, archive/tar, compress/* are outside /repo); the on-disk state after a kill at an arbitrary point (no crash model in this family: what is proved is that the resume file only ever names an index below which every entry completed); symlink targets, modes')
 
 REDIFF = [('/pwr/rediff', '(*context).analyzePatch'), ('/pwr/rediff', '(*context).Optimize')]
-DIFFPIPE = [('/pwr', '(*DiffContext).WritePatch'), ('/pwr', 'CompressWire'), ('/ctxcopy', 'DoBuffer'), ('/bsdiff', '(*DiffContext).Do')] + REDIFF
+DIFFPIPE = [('/pwr', '(*DiffContext).WritePatch'), ('/pwr', 'CompressWire'), ('/ctxcopy', 'DoBuffer'), ('/multiread', '(*multiread).Do'), ('/bsdiff', '(*DiffContext).Do')] + REDIFF
 
 prop('C15',
      functions=DIFFPIPE,
@@ -165,7 +165,8 @@ PROPERTIES['C07']['functions'] += REDIFF
 
 BOWL_LISTS = [('/pwr/bowl', '(*overlayBowl).markMove'), ('/pwr/bowl', '(*overlayBowl).markOverlay'), ('/pwr/bowl', '(*overlayBowl).GetWriter')]
 BOWL_COMMIT = [('/pwr/bowl', '(*overlayBowl).copy'), ('/pwr/bowl', '(*overlayBowl).move'), ('/pwr/bowl', '(*overlayBowl).applyMoves'),
-               ('/pwr/bowl', '(*overlayBowl).applyOverlays$1'), ('/pwr/bowl', '(*overlayBowl).applyOverlays')]
+               ('/pwr/bowl', '(*overlayBowl).applyOverlays$1'), ('/pwr/bowl', '(*overlayBowl).applyOverlays'),
+               ('/pwr/bowl', '(*overlayBowl).applyTranspositions')]
 BOWL_FRESH = [('/pwr/bowl', '(*freshBowl).Transpose'), ('/pwr/bowl', '(*freshBowl).GetWriter'), ('/pwr/bowl', '(*freshEntryWriter).Resume'),
               ('/pwr/bowl', '(*freshEntryWriter).Save'), ('/pwr/bowl', '(*freshEntryWriter).Write')]
 PROPERTIES['C09']['functions'] += [('/pwr/bowl', '(*freshBowl).Transpose')]
@@ -179,7 +180,7 @@ prop('C02',
      assumes=['A-FS: ghost model of the entry at one path (nothing / directory / other) with in-context contracts of screw.Lstat, RemoveAll, MkdirAll',
               'fspool.GetPath(stagePool, i) lies in the stage folder (the pool was built over StageFolder in NewOverlayBowl: not under contract)',
               'A-POOL; everything C14 assumes for the overlay stream'],
-     not_decided='the commit phase as a whole: applyTranspositions (clash-free renames over map iteration orders), applyMoves, applyOverlays + truncation, deleteGhosts -- relations between whole directory trees over all path-level shapes and all map orders are not expressible as function contracts within reach of this engine (no file-system tree model); "the old build is untouched until Commit" is proved only as: every entry writer handed out during patching is given the stage path of its file, and overlay writers read the old file through the read-only pool')
+     not_decided='the commit phase AS A WHOLE: which path is renamed or copied where and in which order by applyTranspositions (clash-free renames over all map iteration orders), deleteGhosts, the order of the five sub-phases, and the resulting directory tree -- relations between whole trees over all path-level shapes are not expressible as function contracts within reach of this engine (no file-system tree model, strings are opaque).  Decided are the file-level steps and the work lists: entry writers get stage paths; copy replaces the destination (create+write+truncate) with the source bytes; move = rename or copy+remove; every file listed for a move is moved stage->output; every listed overlay is applied onto the old file opened without create/truncate and the file is cut at the applier\'s final position; the clash pre-pass examines every transposition of every group; processDir leaves a real directory')
 
 prop('C03',
      functions=BOWL_LISTS + BOWL_FRESH + OVERLAY_ENTRY + WIRE_ALL + PATCHER + PATCHER_SERIES + [('/pwr/overlay', 'NewOverlayWriter'), ('/pwr/overlay', '(*overlayWriter).Finalize'), ('/pwr/overlay', '(*OverlayPatchContext).Patch')],
@@ -192,7 +193,7 @@ CLAIMED = {'C02', 'C03', 'C15', 'C19', 'C18', 'C04', 'C09', 'C17', 'C11', 'C08',
 # reasons for properties not claimed (kept current)
 NOT_APPLICABLE = {}
 LEVEL_TEXT = {
- 'C02': {'text': 'Proof of function-level clauses only (the commit phase is not decided): every entry writer handed out while patching gets the stage path of its file; existing paths are listed for an overlay (reading the old content at the index of the same path), new paths for a move; the work lists stay duplicate-free; processDir leaves a real directory (judged by Lstat of the path itself) or fails; the overlay stream clauses of C14.', 'design_ref': 'DESIGN.md §5 C02'},
+ 'C02': {'text': 'Proof of function-level clauses only (the commit phase as a whole is not decided): every entry writer handed out while patching gets the stage path of its file; existing paths are listed for an overlay (reading the old content at the index of the same path), new paths for a move; the work lists stay duplicate-free; file-level commit steps: copy replaces the destination with the source bytes (create+write+truncate), move is a rename or copy+remove, every listed move and overlay is carried out, an overlay is applied onto the old file opened without create/truncate and cut at the applier\'s final position, the clash pre-pass examines every transposition; processDir leaves a real directory (judged by Lstat of the path itself) or fails; the overlay stream clauses of C14.', 'design_ref': 'DESIGN.md §5 C02'},
  'C03': {'text': 'Proof of the per-layer obligations only (the crash/resume equivalence itself is not decided): wire save protocol and resume offsets (C13), entry-writer checkpoints exact after flush+sync and resumed at exactly those offsets without truncation, overlay stream header/terminator (C14), duplicate-free bowl work lists on re-processing, per-file checkpoint state cleared before the next file, stream-grammar consumption of the patcher (C17).', 'design_ref': 'DESIGN.md §5 C03'},
  'C15': {'text': 'Proof of the function-level clauses: the three per-file tasks of WritePatch share no written variable and use different sync contexts and different wire contexts (ownership obligations over the fork group, pointer distinctness by SMT); the reader handed to the fan-out is the one of the file being diffed; the copy loop forwards every byte read, including bytes delivered together with io.EOF, and stops on cancellation.', 'design_ref': 'DESIGN.md §5 C15'},
  'C19': {'text': 'Proof of the function-level clauses: every variable shared by the extraction workers is accessed under the common mutex (ownership obligations over the fork group); the resume file is only written with an index below which every entry has completed (markDone invariant: nextIndex advances over a contiguous completed prefix); Mkdir creates the whole path (os.MkdirAll with the destination path, never os.Mkdir); the tar walk emits a header for every regular file other than the root, empty or not; ctxcopy.DoBuffer reports the bytes written and stops on cancellation.', 'design_ref': 'DESIGN.md §5 C19'},
